@@ -95,8 +95,9 @@ var apiStates = []string{
 	StUtxo, ptPrefix + PtNtfnTip, StNoRead, ptPrefix + PtHdrBatch, ptPrefix + PtReorgAfter,
 }
 
-// NumAPIFixed is the number of fixed scenarios at the start of the family.
-const NumAPIFixed = 2
+// NumAPIFixed is the number of fixed scenarios at the start of the second
+// list (two of the family, one more guard for the main oracle).
+const NumAPIFixed = 3
 
 // apiKBase separates the scenario numbers of the family from the main list
 // (Plan.K names the scenario and its latency file).
@@ -153,6 +154,7 @@ func APIPlanFromSeed(seed int64, j int) Plan {
 			Gate:  GateConnectHost, GateTarget: "some.host:18444", GatePermanent: true,
 			GateResult: LookUnknown, GateReleaseMs: 300, Spares: 1,
 		}
+		p.Fixed = p.API.Fixed
 		return p
 	case 1:
 		// Fixed: the same through UnbanPeer of an address the client has
@@ -168,6 +170,24 @@ func APIPlanFromSeed(seed int64, j int) Plan {
 			Gate: GateUnbanIP, GateTarget: "10.77.9.9:18444", GatePermanent: false,
 			GateResult: LookSpare, GateReleaseMs: 300, Spares: 1, WarmMs: 30,
 		}
+		p.Fixed = p.API.Fixed
+		return p
+	}
+
+	if j == 2 {
+		// Fixed, not a peer-state scenario (it lives here so that the main
+		// list keeps its numbering): filters are being fetched, accepted and
+		// queued for the database (PersistToDisk) without pause while Stop
+		// waits for a broadcast no peer reacts to: every step of Stop that
+		// comes before the work manager's is exercised with query responses
+		// still being handled.
+		p := base(StBroadcast, j)
+		p.Fixed = "filters-accepted-while-stop-waits-for-a-pending-broadcast"
+		p.ChainLen, p.HdrBatch, p.Preset = 2400, 2000, 0
+		p.Peers = []string{PHonest, PHonest, PHonest}
+		p.Persist = true
+		p.Inflight = []string{CCFLoop, CSendTx}
+		p.MuteAtStop, p.HoldMs, p.StopDelayMs = "", 300, 0
 		return p
 	}
 
